@@ -1,0 +1,8 @@
+//go:build verif
+
+package expr
+
+// Accessors for the verification harness (/verif). Compiled only with -tags verif.
+
+// VerifMatchLikePattern exposes matchLikePattern.
+func VerifMatchLikePattern(text, pattern string) bool { return matchLikePattern(text, pattern) }
